@@ -14,9 +14,10 @@ Inductive c17_case :=
 | EscCase (s obs : bytes)                                   (* url.QueryEscape *)
 | UnescCase (s : bytes) (obs : option bytes)                (* url.QueryUnescape *)
 | ParseQueryCase (s : bytes) (obs : form) (obs_err : bool)  (* url.ParseQuery, keys sorted *)
-| QuoteCase (s obs_q obs_e : bytes)                         (* fmt %q ; multipart escapeQuotes *)
+| QuoteCase (prn : list N) (s obs_q obs_e : bytes) (obs_back : option bytes)
+    (* fmt %q ; multipart escapeQuotes ; the parameter mime.ParseMediaType recovers from the %q form *)
 | BoundaryCase (b : bytes) (obs_valid : bool) (obs_ct : bytes) (obs_back : option bytes)
-| BodyCase (q : breq) (tbl : list (bytes * bytes)) (o : body_obs)   (* end to end, at the origin *)
+| BodyCase (q : breq) (prn : list N) (tbl : list (bytes * bytes)) (o : body_obs)   (* end to end, at the origin *)
 | WriterCase (total interval t0 : Z) (evs : list (Z * Z)) (obs : list Z)
 | ReaderCase (interval t0 : Z) (evs : list (Z * bool * Z)) (obs : list Z)
 | WriterAnyClock (total : Z) (ns : list Z) (obs : list Z)
@@ -29,11 +30,22 @@ Definition form_eqb (a b : form) : bool := list_eqb entry_eqb a b.
 Definition tbl_sniff (tbl : list (bytes * bytes)) (s : bytes) : bytes :=
   match assoc s tbl with Some v => v | None => bs "?not-in-sniff-table" end.
 
+(* strconv.IsPrint as a table: the printable runes >= 0x80 that occur in the case *)
+Definition tbl_print (prn : list N) (r : N) : bool := existsb (N.eqb r) prn.
+
 Definition view_eqb (a b : part_view) : bool :=
   opt_bytes_eqb (v_name a) (v_name b) && opt_bytes_eqb (v_filename a) (v_filename b) &&
   opt_bytes_eqb (v_ctype a) (v_ctype b) && bytes_eqb (v_body a) (v_body b).
 Definition strip_body (v : part_view) : part_view :=
   {| v_name := v_name v; v_filename := v_filename v; v_ctype := v_ctype v; v_body := [] |}.
+
+(* the view of a file with the names as the server recovers them (= the supplied names exactly
+   when they are quotable, Proofs/MultipartProofs.file_name_recovered) *)
+Definition image_view (ip : N -> bool) (sniff : bytes -> bytes) (f : file_upload) : part_view :=
+  let v := file_view sniff f in
+  {| v_name := Some (name_image ip (length (f_param f)) (f_param f));
+     v_filename := Some (name_image ip (length (f_name f)) (f_name f));
+     v_ctype := v_ctype v; v_body := v_body v |}.
 
 Definition marshaller_eqb (a b : marshaller) : bool :=
   match a, b with MJson, MJson | MXml, MXml => true | _, _ => false end.
@@ -52,14 +64,19 @@ Definition c17_check (c : c17_case) : bool :=
   | ParseQueryCase s f e =>
       let '(ps, e') := parse_query s in
       form_eqb (sort_form (group_pairs ps)) f && Bool.eqb e' e
-  | QuoteCase s q e => bytes_eqb (go_quote s) q && bytes_eqb (escape_quotes s) e
+  | QuoteCase prn s q e back =>
+      let ip := tbl_print prn in
+      bytes_eqb (go_quote ip s) q && bytes_eqb (escape_quotes s) e &&
+      opt_bytes_eqb (Some (name_image ip (length s) s)) back &&
+      Bool.eqb (quotable ip s) (opt_bytes_eqb (Some s) back)
   | BoundaryCase b v ct back =>
       Bool.eqb (valid_boundary b) v &&
       (if v then bytes_eqb (form_data_content_type b) ct &&
                  opt_bytes_eqb (parse_boundary_param ct) back else true)
-  | BodyCase q tbl o =>
+  | BodyCase q prn tbl o =>
       let sniff := tbl_sniff tbl in
-      match plan_of sniff q with
+      let ip := tbl_print prn in
+      match plan_of ip sniff q with
       | PNone => o_arrived o && negb (o_err o) && bytes_eqb (o_body o) []
       | PError => o_err o
       | PBody ct body =>
@@ -76,7 +93,7 @@ Definition c17_check (c : c17_case) : bool :=
                  | Some vs =>
                      list_eqb view_eqb (map strip_body vs) ps &&
                      list_eqb view_eqb vs
-                       (map field_view (multipart_fields q) ++ map (file_view sniff) (q_files q))
+                       (map field_view (multipart_fields q) ++ map (image_view ip sniff) (q_files q))
                  | None => false
                  end
              end
@@ -88,6 +105,7 @@ Definition c17_check (c : c17_case) : bool :=
       | PRaw b detect =>
           o_arrived o && negb (o_err o) && bytes_eqb (o_body o) b &&
           (if detect then true else bytes_eqb (o_ct o) (preset_ct q))
+      | PStream b => o_arrived o && negb (o_err o) && bytes_eqb (o_body o) b
       end
   | WriterCase total interval t0 evs obs =>
       zlist_eqb (run_writer total interval (w0 t0) evs) obs
